@@ -210,6 +210,35 @@ def r2(run, db):
                 run.check(len(closes) >= 1, role + "|default-close", "next() falls through to Close (%d Close sites)" % len(closes), "next() has no Close fall-through", f.where())
 
 
+
+def true_only_on_variant(g, variant):
+    """`g` (a bool predicate over a two-level state enum) answers true only when the inner machine is in `variant`: the
+    constant `true` is stored somewhere, every inner-machine switch has an edge for `variant` from which `true` is reachable,
+    and from none of its other edges.  Independent of how the match is written (nested matches, or-patterns, matches!)."""
+    trues = [site for site, s in g.stmts() if s["k"] == "assign" and s["rv"]["k"] == "use" and s["rv"]["op"].get("val") == "true"]
+    if not trues:
+        return False
+    inner = []
+    for ssite, t in g.switches():
+        info = g.switch_info(ssite)
+        if info.get("kind") == "enum" and variant in info["edges"]:
+            inner.append((ssite, info))
+    if not inner:
+        return False
+    for ssite, info in inner:
+        for nm, b in info["edges"].items():
+            reach = g.reach(Site(b, 0))
+            hit = any(tr in reach for tr in trues)
+            same_target_as_variant = (b == info["edges"][variant])
+            if nm == variant and not hit:
+                return False
+            if nm != variant and hit and not same_target_as_variant:
+                return False
+            if nm != variant and same_target_as_variant:
+                return False
+    return True
+
+
 def r3(run, db):
     isok = [f for f in db.crate_fns(RC) if f.id.endswith("AuthenticationState::is_ok")]
     run.anchor("session gate is_ok", len(isok), 1)
@@ -229,6 +258,9 @@ def r3(run, db):
                     if g.edge_dominates((ssite.bb, b), site) and len([n for n, bb in info["edges"].items() if bb == b]) == 1:
                         doms.add(nm)
         good = good and ("Ok" in doms)
+    if not (good and len(trues) == 2):
+        good = true_only_on_variant(g, "Ok")
+        trues = [0, 0] if good else trues
     run.check(good and len(trues) == 2, "is_ok|only-Ok-variants", "is_ok() answers true only on the Ok variant of the client and of the server machine", "is_ok() can answer true for a non-Ok state", g.where())
     for nm in ("handle_node", "handle_control"):
         fs = [f for f in db.crate_fns(RC) if re.search(r"NodeSession::%s(::\{closure#0\})?$" % nm, f.id)]
@@ -473,6 +505,8 @@ def r7(run, db):
                         if g.edge_dominates((ssite.bb, b), site) and len([n for n, bb in info["edges"].items() if bb == b]) == 1:
                             doms.add(nm)
             good = good and "Close" in doms
+        if not good:
+            good = true_only_on_variant(g, "Close")
         run.check(good, "is_close|only-Close", "is_close() is true only for the Close variants", "is_close() changed", g.where())
 
 
